@@ -31,7 +31,8 @@ class Suite:
     """
 
     def __init__(self, name, engine, cases, monitor=None, nontrivial=None, model_engine=None,
-                 spec_engine=None, binary=None, rule="", compare=True, exhaustive=False, timeout=1800):
+                 spec_engine=None, binary=None, rule="", compare=True, exhaustive=False, timeout=300,
+                 canon=None, candidate_ok=None):
         self.name = name
         self.engine = engine
         self.model_engine = model_engine or engine
@@ -44,19 +45,24 @@ class Suite:
         self.compare = compare
         self.exhaustive = exhaustive
         self.timeout = timeout
+        self.canon = canon or (lambda il, ml: (il, ml))
+        self.candidate_ok = candidate_ok or (lambda ops: True)
 
 
-def run_impl(suite, cases):
+def run_impl(suite, cases, timeout=None):
     """Run the real code on the cases; an aborting process is an observation, not a crash."""
+    timeout = timeout or suite.timeout
     res = {}
     remaining = list(cases)
     guard = 0
     while remaining and guard < 50:
         guard += 1
-        rc, by, err = vlib.run_cases(suite.binary, suite.engine, remaining, suite.timeout)
+        rc, by, err = vlib.run_cases(suite.binary, suite.engine, remaining, timeout)
         res.update(by)
         if rc == 0:
             break
+        if rc == -999:
+            err = "HANG " + err
         ids = [c.cid for c in remaining]
         seen = [i for i in ids if i in by]
         if not seen:
@@ -136,7 +142,8 @@ def process_suite(rep, mod, suite, model_ok, max_shrink=3):
         if model_ok and suite.compare:
             rep.compared += 1
             ml = model.get(c.cid, ["<no output>"])
-            if il != ml:
+            ci, cm = suite.canon(il, ml)
+            if ci != cm:
                 dis.append((c, il, ml))
     if len(rep.samples) < 6 and cases:
         c = cases[min(len(cases) - 1, 3)]
@@ -151,15 +158,19 @@ def process_suite(rep, mod, suite, model_ok, max_shrink=3):
         c, v, il = min(lst, key=lambda t: len(t[0].ops))
 
         def still(ops, sig=sig):
+            if not suite.candidate_ok(ops):
+                return False
             cc = Case("s", ops, c.meta)
-            i2 = run_impl(suite, [cc]).get("s", ["<no output>"])
+            if model_ok and any("HANG" in l for l in run_model(suite.model_engine, [cc]).get("s", [])):
+                return False          # the candidate would block the real code forever; not a useful reduction
+            i2 = run_impl(suite, [cc], 15).get("s", ["<no output>"])
             s2 = run_model(suite.spec_engine, [cc]).get("s") if (model_ok and suite.spec_engine) else None
             r = suite.monitor(cc, i2, s2)
             return bool(r) and r[1] == sig
 
         ops = vlib.shrink_ops(c.ops, still, keep_prefix=c.meta.get("keep_prefix", 0)) if len(c.ops) > 1 else c.ops
         cc = Case(c.cid + "-min", ops, c.meta)
-        i2 = run_impl(suite, [cc]).get(cc.cid, [])
+        i2 = run_impl(suite, [cc], 15).get(cc.cid, [])
         s2 = run_model(suite.spec_engine, [cc]).get(cc.cid) if (model_ok and suite.spec_engine) else None
         r = suite.monitor(cc, i2, s2) or v
         path = rep.replay_path(suite.name)
@@ -176,12 +187,18 @@ def process_suite(rep, mod, suite, model_ok, max_shrink=3):
         shown = []
         for c, il, ml in sorted(dis, key=lambda t: len(t[0].ops))[:max_shrink]:
             def still(ops):
+                if not suite.candidate_ok(ops):
+                    return False
                 cc = Case("s", ops, c.meta)
-                return run_impl(suite, [cc]).get("s") != run_model(suite.model_engine, [cc]).get("s")
+                m2 = run_model(suite.model_engine, [cc]).get("s")
+                if m2 and any("HANG" in l for l in m2):
+                    return False
+                a2, b2 = suite.canon(run_impl(suite, [cc], 15).get("s") or [], m2 or [])
+                return a2 != b2
 
             ops = vlib.shrink_ops(c.ops, still, keep_prefix=c.meta.get("keep_prefix", 0)) if len(c.ops) > 1 else c.ops
             cc = Case(c.cid + "-min", ops, c.meta)
-            i2 = run_impl(suite, [cc]).get(cc.cid, [])
+            i2 = run_impl(suite, [cc], 15).get(cc.cid, [])
             m2 = run_model(suite.model_engine, [cc]).get(cc.cid, [])
             d = vlib.first_diff(i2, m2)
             shown.append((cc, i2, m2, d))
@@ -339,7 +356,7 @@ def replay(mod, rep, path, drv_ok, h_ok):
         print("no suite %r for %s (file names a proof obligation or a build failure; nothing to execute)" % (hdr.get("suite"), rep.prop))
         return 1
     c = Case("replay", ops)
-    il = run_impl(suite, [c]).get("replay", [])
+    il = run_impl(suite, [c], 30).get("replay", [])
     ml = run_model(suite.model_engine, [c]).get("replay", []) if drv_ok else []
     sl = run_model(suite.spec_engine, [c]).get("replay") if (drv_ok and suite.spec_engine) else None
     print("ops:")
@@ -359,7 +376,7 @@ def replay(mod, rep, path, drv_ok, h_ok):
         bad = True
     else:
         print("monitor: ok")
-    if suite.compare and drv_ok and il != ml:
+    if suite.compare and drv_ok and suite.canon(il, ml)[0] != suite.canon(il, ml)[1]:
         print("correspondence: DIFFERS %r" % (vlib.first_diff(il, ml),))
         bad = True
     if bad:
